@@ -95,6 +95,8 @@ pub fn spawn_unipayload_handler_with<F>(
                                                     klukai_types::verif::uni_seen_push(
                                                         payload_cluster_id.0,
                                                         cluster_id.0,
+                                                        change.actor_id.to_bytes(),
+                                                        change.versions().start().0,
                                                     );
                                                     if cluster_id != payload_cluster_id {
                                                         continue;
